@@ -39,6 +39,7 @@ type Engine struct {
 	implCache   map[string][]types.Type
 	aliasCache  map[string]types.Type
 	epochCounter int
+	sendCache    map[string]string
 	outOfLine   map[string]bool // "qualified struct type.field": struct-typed field whose address escapes
 	workDir     string
 	timeoutS    int
@@ -142,7 +143,7 @@ func (eng *Engine) ifaceContract(c *ssa.CallCommon) *FuncContract {
 func newEngine(repo, specDir string) *Engine {
 	return &Engine{repo: repo, specDir: specDir, spkgs: map[string]*ssa.Package{}, allFuncs: map[string]*ssa.Function{},
 		ghosts: map[string]*ghostDecl{}, rawAccessors: map[string]rawAcc{}, lenFns: map[string]string{}, immHeaps: map[string]bool{},
-		rawDeclared: map[string]bool{}, implCache: map[string][]types.Type{}, aliasCache: map[string]types.Type{}, outOfLine: map[string]bool{}, specInfos: map[*VCGen]map[string]*specFnInfo{}, timeoutS: 10}
+		rawDeclared: map[string]bool{}, implCache: map[string][]types.Type{}, aliasCache: map[string]types.Type{}, sendCache: map[string]string{}, outOfLine: map[string]bool{}, specInfos: map[*VCGen]map[string]*specFnInfo{}, timeoutS: 10}
 }
 
 // load loads the given module directories (relative to repo) with the verif tag.
@@ -277,6 +278,9 @@ func (eng *Engine) queryText(g *VCGen, o Obligation, lemmaFacts []string) string
 	for _, d := range g.so.decls {
 		b.WriteString(d + "\n")
 	}
+	for _, d := range g.so.strDecls() {
+		b.WriteString(d + "\n")
+	}
 	for _, d := range g.specDecls {
 		b.WriteString(d + "\n")
 	}
@@ -284,9 +288,6 @@ func (eng *Engine) queryText(g *VCGen, o Obligation, lemmaFacts []string) string
 		if strings.HasPrefix(l, "late:") {
 			b.WriteString(l[5:] + "\n")
 		}
-	}
-	for _, d := range g.so.strDecls() {
-		b.WriteString(d + "\n")
 	}
 	for _, d := range g.decls {
 		b.WriteString(d + "\n")
